@@ -1,0 +1,59 @@
+//go:build verif
+
+// Contracts for package requests, checked by /verif/govc (see /verif/DESIGN.md).
+// This file contains only comments: it adds no code to any build.
+
+package requests
+
+// Representation invariant of the request queue: every queued or sent block
+// has its membership bit set, and no block occurs twice (neither within a
+// list nor across the two lists). Hence Enqueue -- which refuses a block whose
+// bit is set -- can never create a duplicate of an outstanding request.
+//@ spec RBitsQ(rs *Requests) bool
+//@   import "github.com/jech/storrent/bitmap"
+//@   body forall k int :: 0 <= k && k < len(rs.queue) ==> bitmap.Bit(rs.bitmap, int(rs.queue[k].index))
+//@ spec RBitsR(rs *Requests) bool
+//@   import "github.com/jech/storrent/bitmap"
+//@   body forall k int :: 0 <= k && k < len(rs.requested) ==> bitmap.Bit(rs.bitmap, int(rs.requested[k].index))
+//@ spec RDistQ(rs *Requests) bool
+//@   body forall k int, l int :: 0 <= k && k < l && l < len(rs.queue) ==> rs.queue[k].index != rs.queue[l].index
+//@ spec RDistR(rs *Requests) bool
+//@   body forall k int, l int :: 0 <= k && k < l && l < len(rs.requested) ==> rs.requested[k].index != rs.requested[l].index
+//@ spec RDistQR(rs *Requests) bool
+//@   body forall k int, l int :: 0 <= k && k < len(rs.queue) && 0 <= l && l < len(rs.requested) ==> rs.queue[k].index != rs.requested[l].index
+//@ spec RSep(rs *Requests) bool
+//@   body rs.queue == nil || rs.requested == nil || ref_(rs.queue) != ref_(rs.requested)
+//@ spec ROK(rs *Requests) bool
+//@   body RBitsQ(rs) && RBitsR(rs) && RDistQ(rs) && RDistR(rs) && RDistQR(rs) && RSep(rs)
+// Member: the block is queued or outstanding (as far as the bitmap knows).
+//@ spec Member(rs *Requests, i int) bool
+//@   import "github.com/jech/storrent/bitmap"
+//@   body bitmap.Bit(rs.bitmap, i)
+// AllBelow: every queued block number is below n.
+//@ spec AllBelow(rs *Requests, n int) bool
+//@   body forall k int :: 0 <= k && k < len(rs.queue) ==> int(rs.queue[k].index) < n
+
+//@ func (*Requests).Queue
+//@   requires rs != nil
+//@   ensures  $r0 == len(rs.queue)
+//@   inline
+//@ func (*Requests).Requested
+//@   requires rs != nil
+//@   ensures  $r0 == len(rs.requested)
+//@   inline
+
+// Enqueue: refuses exactly the blocks that are already queued or outstanding.
+//@ func (*Requests).Enqueue
+//@   requires rs != nil && ROK(rs)
+//@   modifies rs.queue, rs.queue[__], rs.bitmap, rs.bitmap[__]
+//@   ensures  [dup]    $r0 == !old(Member(rs, int(index)))
+//@   ensures  [queued] $r0 ==> len(rs.queue) == old(len(rs.queue)) + 1 && rs.queue[len(rs.queue)-1].index == index && Member(rs, int(index))
+//@   ensures  [same]   !$r0 ==> len(rs.queue) == old(len(rs.queue))
+//@   ensures  [sent]   len(rs.requested) == old(len(rs.requested))
+//@   ensures  [bitsq]  RBitsQ(rs)
+//@   ensures  [bitsr]  RBitsR(rs)
+//@   ensures  [distq]  RDistQ(rs)
+//@   ensures  [distr]  RDistR(rs)
+//@   ensures  [distqr] RDistQR(rs)
+//@   ensures  [sep]    RSep(rs)
+//@   props    C11 C09
